@@ -422,6 +422,7 @@ type State struct {
 	Assumed  map[string]bool  // trusted-call notes
 	Unsupported string
 	LockSnaps []lockSnap
+	LoopSnaps []loopSnap
 	FreshList []*Term
 	LiveIters []*RangeIter
 	Epoch   int // bumped when "everything" is havocked, so later-materialised families are fresh too
@@ -445,6 +446,7 @@ func (s *State) Clone() *State {
 		Assumed:   s.Assumed,
 		Epoch:     s.Epoch,
 		LockSnaps: s.LockSnaps[:len(s.LockSnaps):len(s.LockSnaps)],
+		LoopSnaps: s.LoopSnaps[:len(s.LoopSnaps):len(s.LoopSnaps)],
 		FreshList: s.FreshList[:len(s.FreshList):len(s.FreshList)],
 		LiveIters: s.LiveIters[:len(s.LiveIters):len(s.LiveIters)],
 	}
@@ -662,7 +664,14 @@ func (s *State) mapDelete(mt *types.Map, m, k *Term) {
 // ghost scalar/array families
 func (s *State) ghostArr(name string, el Sort) *Term { return s.heapGet("G$"+name, ArrSort(SInt, el)) }
 func (s *State) setGhostArr(name string, t *Term)    { s.Heap["G$"+name] = t }
-func (s *State) ghostInt(name string) *Term           { return s.heapGet("G$"+name, SInt) }
+func (s *State) ghostInt(name string) *Term {
+	_, had := s.Heap["G$"+name]
+	t := s.heapGet("G$"+name, SInt)
+	if !had {
+		s.Assume(Ge(t, IntLit(0))) // ghost counters count events
+	}
+	return t
+}
 func (s *State) setGhost(name string, t *Term)        { s.Heap["G$"+name] = t }
 
 func (s *State) closed(ch *Term) *Term { return Select(s.ghostArr("closed", SBool), ch) }
@@ -709,12 +718,17 @@ func (s *State) assumeValAllocated(v *Val) {
 	if v.Term != nil && v.Fields == nil {
 		if v.T != nil && isRefType(v.T) && v.Term.Sort == SInt {
 			s.assumeAllocated(v.Term)
+		} else if v.T != nil && v.Term.Sort == SInt && v.Term.Kind != kLit {
+			if b, ok := v.T.Underlying().(*types.Basic); ok && b.Info()&types.IsInteger != 0 {
+				lo, hi := intRange(v.T)
+				s.Assume(And(Ge(v.Term, BigLit(lo)), Le(v.Term, BigLit(hi))))
+			}
 		}
 		return
 	}
 	if v.T != nil && shapeOf(v.T) == shSlice {
 		s.assumeAllocated(v.Fields[0].Term)
-		s.Assume(Ge(v.Fields[1].Term, IntLit(0)))
+		s.Assume(And(Ge(v.Fields[1].Term, IntLit(0)), Lt(v.Fields[1].Term, BigLit(maxInt64))))
 		s.Assume(Implies(Eq(v.Fields[0].Term, IntLit(0)), Eq(v.Fields[1].Term, IntLit(0))))
 		return
 	}
